@@ -25,6 +25,17 @@ SIM_KINDS = ("simtext", "simbytes_seek", "simbytes_noseek", "simbytes_seekraises
 NONSEEK_KINDS = ("simbytes_noseek", "simbytes_seekraises", "http_plain", "http_chunked", "http_addinfourl")
 
 
+# Set by the thread scheduler (sim/baton.py) for the duration of a threaded run: every read on a simulated transport is a
+# point at which the calling thread may block and other threads run - the reader is this library's network.
+READ_HOOK = [None]
+
+
+def _io_point():
+    h = READ_HOOK[0]
+    if h is not None:
+        h()
+
+
 class SimIOError(OSError):
     """Injected failure of the input source."""
 
@@ -115,6 +126,7 @@ class SimText(object):
         if n == 0:
             self.log.record("read0", 0, 0, self.pos)
             return ""
+        _io_point()
         k = self.sched.next_len(n)
         data = self.payload[self.pos:self.pos + k]
         self.pos += len(data)
@@ -143,6 +155,7 @@ class SimBytes(object):
         if n == 0:
             self.log.record("read0", 0, 0, self.pos)
             return b""
+        _io_point()
         k = self.sched.next_len(n)
         data = self.payload[self.pos:self.pos + k]
         self.pos += len(data)
